@@ -37,6 +37,18 @@ P1Axis == {ACase(0, ins, p1, p2, d, "short", "axis-p1") : ins \in {1, 2, 3}, p1 
 DataAxis ==
     UNION {{ACase(0, ins, p1, 0, d, e, "axis-data") : e \in EncsFor(d), ins \in {1, 2, 3, 4}, p1 \in {0, 3, 7, 8}} : d \in DataClasses}
 
+\* every value of the expected-length field Le (the raw message format does not look at it): short
+\* and extended, with and without data
+LeCase(ins, p1, d, ext, le) ==
+    LET n == Len(d) IN
+    [op |-> "apdu", tag |-> "axis-le",
+     wire |-> <<0, ins, p1, 0>> \o
+              (IF ext THEN (IF n = 0 THEN <<0, le \div 256, le % 256>> ELSE <<0, n \div 256, n % 256>> \o d \o <<le \div 256, le % 256>>)
+               ELSE (IF n = 0 THEN <<le>> ELSE <<n>> \o d \o <<le>>))]
+LeAxis ==
+    {LeCase(ins, p1, d, FALSE, le) : ins \in {1, 2, 3}, p1 \in {0, 3}, d \in {<< >>, Data64, AuthData(16, 16)}, le \in {0, 1, 2, 5, 6, 7, 64, 255}}
+    \cup {LeCase(ins, p1, d, TRUE, le) : ins \in {1, 2, 3}, p1 \in {0, 3}, d \in {<< >>, Data64, AuthData(16, 16)}, le \in {0, 1, 5, 6, 7, 255, 256, 65535}}
+
 \* the key handle's own limit: its length byte says 0..255, and what follows must be exactly that
 \* many bytes -- not that many modulo 256 (C12: limits are exact, accepted values are delivered whole)
 KeyHandleLimitCases ==
@@ -51,7 +63,7 @@ Malformed ==
                <<255, 1, 0, 0>>, <<0, 3, 0, 0, 0, 0, 0, 0, 0>>, <<0, 1, 0, 0, 1>> \o Data64,
                <<0, 2, 3, 0, 0, 0, 70>> \o AuthData(4, 4), <<0, 1, 0, 0, 64>> \o Data64 \o <<0, 0>>}}
 
-MC_Cases == ClassAxis \cup InsAxis \cup P1Axis \cup DataAxis \cup Malformed
+MC_Cases == ClassAxis \cup InsAxis \cup P1Axis \cup DataAxis \cup LeAxis \cup Malformed
 
 (***************************************************************************)
 (* C08 on the model: the decision depends on the header only through the   *)
